@@ -17,7 +17,7 @@ import numpy as np
 
 from .. import datagen, estimators, world
 from ..driver import clone, seeds_for
-from ..util import digest
+from ..util import digest, exc_is_domain
 from ..worlds import pipeline as P
 
 PROPERTY = "C05"
@@ -28,7 +28,7 @@ PROBES = ["pred_chunk_lacks_fold", "one_row_last_chunk", "spectrum_split_across_
           "spectrum_within_one_conf_chunk", "subsampled", "rowgroup_inside_chunk", "spill_files>=2",
           "switch_in_get_rows", "switch_in_save_chunks", "parquet", "workers>=8", "dedup_off", "rollup_off",
           "multi_file", "order_sensitive_learner", "sklearn_learner", "merge_chunk_small", "protein_level",
-          "pep_files_compared_strictly", "pep_files_checked_for_shape_only"]
+          "pep_files_compared_strictly", "pep_files_checked_for_shape_only", "feature_with_missing_values"]
 RULE = (
     "Each scenario = one seeded tie-free data set + configuration (learner, folds, seeds, rollup/decoy/dedup "
     "switches) executed as reference (text, knobs > file, 1 worker, no threads) and as perturbed execution "
@@ -300,6 +300,7 @@ def run_scenario(scn, workdir):
         "sklearn_learner": int(cfg["learner"] in ("svc", "perc")),
         "merge_chunk_small": int(kn.get("MERGE_SORT_CHUNK_SIZE", 10**9) < 10),
         "protein_level": int(scn.get("fasta_seed") is not None),
+        "feature_with_missing_values": int(bool(scn["data"].get("nan_feature"))),
     }
     rg = pert.get("row_group")
     if pert["format"] == "parquet" and rg:
@@ -371,6 +372,9 @@ def run_scenario(scn, workdir):
         if type(ref.exc) is not type(got.exc) or ref.stage != got.stage:
             return viol("different_errors", f"reference: {ref.error}; perturbed: {got.error}",
                         ref=ref.err_sig(), got=got.err_sig())
+        if not exc_is_domain(ref.exc):
+            return viol("run_failed", f"both executions fail with an error that is not a data-domain error: {ref.error}",
+                        **ref.err_sig())
         out.update(status="uninformative", message=f"both executions raise: {ref.error}"[:160])
         return out
     # ties in the reference make competition winners arbitrary
@@ -448,6 +452,8 @@ def shrink_candidates(scn):
         c = clone(scn); c["cfg"]["max_iter"] = 1; yield c
     if dp["level_cols"]:
         c = clone(scn); c["data"]["level_cols"] = []; yield c
+    if dp.get("nan_feature"):
+        c = clone(scn); c["data"]["nan_feature"] = 0; yield c
     for x in list(dp["spec_extra"]):
         c = clone(scn); c["data"]["spec_extra"] = [y for y in dp["spec_extra"] if y != x]; yield c
     if dp["n_spectra"] > 70:
